@@ -75,6 +75,38 @@ Theorem C42_chunked_id_one_frame : forall maxBytes ext mint maxt ss,
   chunked_path maxBytes ext mint maxt ss = map (trim_series mint maxt ext) ss.
 Proof. exact chunked_id_one_frame. Qed.
 
+(* frame budget: a frame holds one chunk, or its chunks except the last stay below
+   maxBytesInFrame minus the label sizes ("inaccuracy of at most one chunk") *)
+Theorem C42_frames_budget : forall maxBytes lbls chs,
+  Forall (within_budget (max_data_length maxBytes lbls)) (frames_of maxBytes lbls chs).
+Proof. exact frames_budget. Qed.
+
+(* read.go querier (NewSampleAndChunkQueryableClient) configured with the serving side's
+   external labels: the labels added by the handler are stripped again and the result is the
+   direct result itself — over the sampled response ... *)
+Theorem C42_querier_sampled_id : forall limit maxBytes ext mnames sortSeries mint maxt ss chunks,
+  Forall good_series ss -> limit <= 0 \/ total_samples ss <= limit ->
+  Forall (fun l => str_mem (fst l) mnames = false) ext ->
+  Forall (fun s => storable ext (ser_l s)) ss ->
+  label_sorted (map (with_ext ext) ss) ->
+  querier_path false limit maxBytes ext mnames sortSeries mint maxt ss chunks = Ok ss.
+Proof. exact querier_sampled_id. Qed.
+
+(* ... and over the streamed response when every series fits one frame *)
+Theorem C42_querier_chunked_id : forall limit maxBytes ext mnames sortSeries mint maxt direct ss,
+  Forall good_cseries ss -> Forall (fits maxBytes ext) ss ->
+  Forall (fun l => str_mem (fst l) mnames = false) ext ->
+  Forall (fun s => storable ext (cs_l s)) ss ->
+  querier_path true limit maxBytes ext mnames sortSeries mint maxt direct ss
+  = Ok (map (fun s => mkSer (cs_l s) (filter (in_range mint maxt) (all_samples (cs_c s)))) ss).
+Proof. exact querier_chunked_id. Qed.
+
+Example C42_querier_nonvacuous :
+  storable [([122%N], [49%N])] [([97%N], [98%N]); ([99%N], [100%N])] /\
+  querier_path false 0 100 [([122%N], [49%N])] [[97%N]] true 0 100
+     [mkSer [([97%N], [98%N])] [mkS 5 KF 1]] [] = Ok [mkSer [([97%N], [98%N])] [mkS 5 KF 1]].
+Proof. exact querier_example. Qed.
+
 (* refuted: a series larger than a frame (every single chunk fits) is returned as two series *)
 Theorem C42_chunked_split_refuted : exists maxBytes ext mint maxt ss,
   Forall good_cseries ss /\
